@@ -302,3 +302,37 @@ pub fn dump_test_case(tc: &TestCase) -> String {
     out.push(']');
     out
 }
+
+/// Canonical dump of the DOM roxmltree builds for `input` (what `dig::File::parse` walks), or the
+/// XML error.  Elements `(e tag ((k v)…) child…)`, text `(t hex)`, anything else `(o)`.
+pub fn dom_dump(input: &str) -> Result<String, String> {
+    fn go(node: roxmltree::Node<'_, '_>, out: &mut String) {
+        if node.is_element() {
+            let _ = write!(out, "(e {} (", hex(node.tag_name().name()));
+            for (i, a) in node.attributes().enumerate() {
+                if i > 0 {
+                    out.push(' ');
+                }
+                let _ = write!(out, "({} {})", hex(a.name()), hex(a.value()));
+            }
+            out.push(')');
+            for c in node.children() {
+                out.push(' ');
+                go(c, out);
+            }
+            out.push(')');
+        } else if node.is_text() {
+            let _ = write!(out, "(t {})", hex(node.text().unwrap_or("")));
+        } else {
+            out.push_str("(o)");
+        }
+    }
+    let doc = roxmltree::Document::parse(input).map_err(|e| format!("{e}"))?;
+    let mut out = String::from("(e h ()");
+    for c in doc.root().children() {
+        out.push(' ');
+        go(c, &mut out);
+    }
+    out.push(')');
+    Ok(out)
+}
